@@ -222,12 +222,19 @@ pub fn mutants(doc: &str, tree: &[Elem]) -> Vec<Mutant> {
             if raw.is_empty() {
                 continue;
             }
-            // meaning-preserving rewrites
-            if !raw.contains('&') && !raw.contains("]]>") {
-                m.push(Mutant { kind: "cdata", label: format!("cdata#{ei}<{}>", e.name), doc: splice(doc, (ts, te), &format!("<![CDATA[{raw}]]>")), twin: None });
-                if raw.chars().count() >= 2 {
-                    let cut = raw.char_indices().nth(1).map(|x| x.0).unwrap_or(1);
-                    m.push(Mutant { kind: "cdata-partial", label: format!("cdata-partial#{ei}<{}>", e.name), doc: splice(doc, (ts, te), &format!("{}<![CDATA[{}]]>", &raw[..cut], &raw[cut..])), twin: None });
+            // meaning-preserving rewrites: the characters the text denotes (references expanded), written literally in CDATA
+            if let Some(lit) = unescape_text(raw).filter(|l| !l.contains("]]>") && !l.is_empty()) {
+                m.push(Mutant { kind: "cdata", label: format!("cdata#{ei}<{}>", e.name), doc: splice(doc, (ts, te), &format!("<![CDATA[{lit}]]>")), twin: None });
+                if lit.chars().count() >= 2 {
+                    let cut = lit.char_indices().nth(1).map(|x| x.0).unwrap_or(1);
+                    // the first character stays outside (escaped as it was written if it needs to be)
+                    let head = match &lit[..cut] {
+                        "&" => "&amp;".to_owned(),
+                        "<" => "&lt;".to_owned(),
+                        ">" => "&gt;".to_owned(),
+                        h => h.to_owned(),
+                    };
+                    m.push(Mutant { kind: "cdata-partial", label: format!("cdata-partial#{ei}<{}>", e.name), doc: splice(doc, (ts, te), &format!("{head}<![CDATA[{}]]>", &lit[cut..])), twin: None });
                 }
             }
             {
@@ -250,6 +257,32 @@ pub fn mutants(doc: &str, tree: &[Elem]) -> Vec<Mutant> {
         }
     }
     m
+}
+
+/// The characters a piece of character data denotes: predefined entities and character references expanded.
+/// None if it contains a reference this does not know (then no rewrite is derived from it).
+pub fn unescape_text(raw: &str) -> Option<String> {
+    let mut out = String::with_capacity(raw.len());
+    let mut rest = raw;
+    while let Some(p) = rest.find('&') {
+        out.push_str(&rest[..p]);
+        let end = rest[p..].find(';')? + p;
+        let name = &rest[p + 1..end];
+        match name {
+            "amp" => out.push('&'),
+            "lt" => out.push('<'),
+            "gt" => out.push('>'),
+            "quot" => out.push('"'),
+            "apos" => out.push('\''),
+            _ => {
+                let cp = if let Some(h) = name.strip_prefix("#x") { u32::from_str_radix(h, 16).ok()? } else { name.strip_prefix('#')?.parse::<u32>().ok()? };
+                out.push(char::from_u32(cp)?);
+            }
+        }
+        rest = &rest[end + 1..];
+    }
+    out.push_str(rest);
+    Some(out)
 }
 
 /// Other spellings of the same document, as clients other than s3s's own serializer write them. Each has the same XML
@@ -332,9 +365,18 @@ fn judge_spellings(a: &mut Acc, order: u64, d: &dyn XmlDriver, which: &str, alts
     }
 }
 
+const TEXT_REWRITES: &[&str] = &["cdata", "cdata-partial", "comment-split", "pi-split", "numeric-char-ref", "hex-char-ref"];
+
 fn judge_mutants(a: &mut Acc, order: u64, d: &dyn XmlDriver, which: &str, alts: &[usize], doc: &str) {
+    judge_mutants_of(a, order, d, which, alts, doc, None);
+}
+
+fn judge_mutants_of(a: &mut Acc, order: u64, d: &dyn XmlDriver, which: &str, alts: &[usize], doc: &str, only: Option<&[&str]>) {
     let Ok(tree) = parse_tree(doc) else { return };
     for mu in mutants(doc, &tree) {
+        if only.is_some_and(|k| !k.contains(&mu.kind)) {
+            continue;
+        }
         let id = || format!("{}/{which}/{}", d.name(), mu.label);
         if !a.selected(&id) {
             continue;
@@ -511,7 +553,13 @@ pub fn run(ctx: &Ctx) -> (Acc, Report) {
                 continue;
             }
             match d.decode_compare(alts, &doc) {
-                Decoded::Same => a.outcome("roundtrip: same value"),
+                Decoded::Same => {
+                    a.outcome("roundtrip: same value");
+                    // every text of the alphabet also meets every meaning-preserving rewrite of a text node
+                    if alts.len() == 1 && lab.contains("=\"") {
+                        judge_mutants_of(a, di, d.as_ref(), &format!("dev:{lab}"), alts, &text, Some(TEXT_REWRITES));
+                    }
+                }
                 Decoded::Differs { .. } if lab.ends_with("=millis") && text.contains(" GMT<") => {
                     // this member is carried as an http-date: whole seconds are the format's stated precision
                     a.outcome("roundtrip: same to the format's precision (http-date member)");
@@ -548,7 +596,7 @@ pub fn run(ctx: &Ctx) -> (Acc, Report) {
     });
     let rep = Report {
         level: "exploration",
-        rule: format!("{n_types} types ({XML_ROOT_TYPES} root, {XML_CONTENT_TYPES} content) with both an encoder and a decoder: base value and every single-member deviation to nesting depth 6 over the XML text alphabet (empty, edge blanks, markup characters, ]]>, non-ASCII, tab/newline, CR, U+0085, U+FFFD), integers 0/-1/max, booleans, timestamps, first/last/unknown enum constants, 1- and 2-item lists (thorough: pairs) -> encode -> well-formed (xmlparser) and decode == value; on the encoded base, a populated value and the fully populated value (every member present at every level, lists of two) of each type every instance of: truncation at every offset, rename / duplicate / delete of each element, swap of adjacent siblings, unknown child, second root, text outside the root, CDATA / partial CDATA / comment / PI / decimal and hex character reference rewrites of each text node, 'abc' appended to each text node, attribute duplication / quote style / blanks / order / character reference / removal / suffix; and the same family again on three other spellings of each document (empty elements self-closed, indented with line breaks between elements, comments and a PI around and inside the root), each spelling itself being judged as a meaning-preserving rewrite. Differential oracles. Distinct by id."),
+        rule: format!("{n_types} types ({XML_ROOT_TYPES} root, {XML_CONTENT_TYPES} content) with both an encoder and a decoder: base value and every single-member deviation to nesting depth 6 over the XML text alphabet (empty, edge blanks, markup characters, ]]>, non-ASCII, tab/newline, CR, U+0085, U+FFFD), integers 0/-1/max, booleans, timestamps, first/last/unknown enum constants, 1- and 2-item lists (thorough: pairs) -> encode -> well-formed (xmlparser) and decode == value; on the encoded base, a populated value and the fully populated value (every member present at every level, lists of two) of each type every instance of: truncation at every offset, rename / duplicate / delete of each element, swap of adjacent siblings, unknown child, second root, text outside the root, CDATA / partial CDATA / comment / PI / decimal and hex character reference rewrites of each text node (these six also on every single-member deviation that sets a string of the text alphabet, incl. text that spells out references, the CDATA form carrying the denoted characters literally), 'abc' appended to each text node, attribute duplication / quote style / blanks / order / character reference / removal / suffix; and the same family again on three other spellings of each document (empty elements self-closed, indented with line breaks between elements, comments and a PI around and inside the root), each spelling itself being judged as a meaning-preserving rewrite. Differential oracles. Distinct by id."),
         exhaustive: true,
         extra: json!({"types": n_types, "encode_only_root_types_not_covered_here(decoded by the SDK in C03)": XML_ENCODE_ONLY_ROOTS, "content_types_with_attribute_members(no stand-alone encoding; covered through Grant, TargetGrant and the roots containing them)": XML_ATTRIBUTE_BEARING_CONTENT_TYPES}),
         assumptions: vec!["decoding by an independent S3 client is C02/C03's half (aws-sdk-s3); here the independent party is the xmlparser tokenizer".into(), "member order inside a structure is not part of the statement: reorderings are recorded only".into()],
